@@ -142,6 +142,25 @@ def gen_for(stream, seed):
         sc = scen.gen_scenario(seed, "shocked", nev=rng.choice([1, 2, 3]), T=rng.choice([16, 24]), max_occ=3)
         sc["stream"] = "early"
         return sc
+    if stream == "finishing":
+        # several rebuilding events at once, the ones registered first small and quickly rebuilt: they finish (and give
+        # their block id back) while later ones are still being served
+        sc = scen.gen_scenario(seed, "shocked", types=["rebuild"], nev=rng.choice([2, 3]), T=rng.choice([16, 24]), max_occ=4)
+        evs = sc["events"]
+        for i, ev in enumerate(evs):
+            if ev["type"] != "rebuild":
+                continue
+            ev["dur"] = rng.choice([1, 2])
+            if i < len(evs) - 1:
+                f = rng.choice([1e-4, 1e-6, 1e-8])
+                ev["impact"] = {k: v * f for k, v in ev["impact"].items()}
+                if ev.get("house"):
+                    ev["house"] = {k: v * f for k, v in ev["house"].items()}
+                ev["rebuild_tau"] = 1
+            else:
+                ev["rebuild_tau"] = rng.choice([5, 30])
+        sc["stream"] = "finishing"
+        return sc
     if stream == "earlydt":
         # step length > 1 and events that occur (and may even end) within the first step: the second step, at
         # t = dt, already sees their shock / reconstruction demand
@@ -172,13 +191,37 @@ def gen_for(stream, seed):
         for ev in sc["events"]:
             if ev["type"] == "arbitrary":
                 continue
-            new = rng.choice([1, 10**3, 10**6])
+            new = rng.choice([1, 10**3, 10**6, 800, 2_500_000])
             ratio = ev["emf"] / new
             ev["impact"] = {k: v * ratio for k, v in ev["impact"].items()}
             if ev.get("house"):
                 ev["house"] = {k: v * ratio for k, v in ev["house"].items()}
             ev["emf"] = new
+        # purchases of an affected industry from one of its rebuilding sectors that are tiny in the table's unit
+        # (non-zero, below 1e-8 in total, different across regions): the regional split of the reconstruction demand
+        # must follow them whatever the unit
+        rebs = [ev for ev in sc["events"] if ev["type"] == "rebuild"]
+        if rebs and rng.random() < 0.5:
+            tb = sc["table"]
+            regs, secs, cats = scen.labels(tb)
+            ev = rebs[0]
+            r_, s_ = next(iter(ev["impact"])).split("|")
+            j = regs.index(r_) * tb["n"] + secs.index(s_)
+            si = secs.index(next(iter(ev["reb_sectors"])))
+            for rr in range(tb["m"]):
+                tb["Z"][rr * tb["n"] + si][j] = [4e-9, 2e-9, 1e-9][rr % 3] / tb["m"]
+            tb["kind"] = tb["kind"] + "+tiny_supplier"
         sc["stream"] = "units"
+        return sc
+    if stream == "blackout":
+        # a sector loses all its capacity in every region at once (an arbitrary loss of exactly 100 % is accepted)
+        sc = scen.gen_scenario(seed, "shocked", nev=rng.choice([0, 1]), T=rng.choice([10, 14]), max_occ=4)
+        regs, secs, cats = scen.labels(sc["table"])
+        ssec = rng.choice(secs)
+        sc["events"].append({"type": "arbitrary", "occ": rng.randint(1, 4), "dur": rng.randint(1, 3), "name": None,
+                             "impact": {f"{r}|{ssec}": 1.0 for r in regs}, "recovery_tau": rng.choice([1, 3]),
+                             "curve": rng.choice(["linear", "convexe"])})
+        sc["stream"] = "blackout"
         return sc
     return scen.gen_scenario(seed, stream)
 
@@ -329,7 +372,7 @@ def one_scenario(pid, sc, res, dr, stats, C, dist, seen_nontrivial, phases, add_
                         for v in RUN_FUNCS[oname](tr, None):
                             add_violation(v, sc)
                 return
-            c = oracles.consts(tr.model)
+            c = oracles.consts(tr.model, sc["model"], scen.labels(sc["table"])[1])
             mm_all = []
             try:
                 # construction obligations are about freshly built objects
